@@ -1,5 +1,6 @@
 import ChiDriver.Common
 import ChiModel.LogLik
+import ChiModel.LogLikReduced
 open Wire ChiModel
 namespace ChiDriver.C01
 
@@ -51,5 +52,22 @@ def call : Op
       some [.str "ok", sc, spec, pw, .int (nObservations data), .int ((ems.map EM.nParams).sum)]
   | _ => none
 
-def ops : List (String × Op) := [("C01.call", call)]
+def parseCells (v : Val) : Option (Cells Float) := do
+  let l ← v.list?
+  l.mapM (fun c => match c with
+    | .list [.bool b, .flt x] => some (b, x)
+    | _ => none)
+
+/-- `C01.reduced_fill mechCells errCells x` → the full mechanistic vector and the full error-parameter
+    vector the sub-models of a likelihood with fixed parameters are evaluated with | err -/
+def reducedFill : Op
+  | [mV, eV, xV] => do
+    let mech ← parseCells mV
+    let errs ← (← eV.list?).mapM parseCells
+    let x ← xV.flts?
+    if x.length ≠ nFreeAll mech errs then some [errVal "valueError"]
+    else some [ofFlts (reducedMech mech x), ofFlts (reducedSig mech errs x)]
+  | _ => none
+
+def ops : List (String × Op) := [("C01.call", call), ("C01.reduced_fill", reducedFill)]
 end ChiDriver.C01
